@@ -40,6 +40,11 @@ type c17Case struct {
 	CancelAtUs  int         `json:"cancel_at_us,omitempty"` // > 0: cancel the stream this long after the writers start
 	Sequential  bool        `json:"sequential,omitempty"`   // stream sockets: connections one after the other instead of concurrently
 	WholeWrites bool        `json:"whole_writes"`           // every write carries whole lines (shared readers: several pipe writers, datagrams)
+	// HoldOpen (stream sockets with cancellation): the peers stay connected and
+	// silent after their scripts until the stream has ended: cancellation alone
+	// must end it. SlowUs: the consumer takes this long over every line.
+	HoldOpen bool `json:"hold_open,omitempty"`
+	SlowUs   int  `json:"slow_us,omitempty"`
 }
 
 // tickWaker wakes pollers after a short interval, like the production timer waker.
@@ -209,7 +214,12 @@ func runC17x(c c17Case, info *c17Info) *vstat.Failure {
 	if err != nil {
 		return vstat.Failf("stream-new", "%v", err)
 	}
-	col := collect(ls.Lines())
+	col := collectSlow(ls.Lines(), time.Duration(c.SlowUs)*time.Microsecond)
+	hold := c.HoldOpen && c.CancelAtUs > 0 && (c.Kind == "unix" || c.Kind == "tcp") && !c.Sequential
+	release := make(chan struct{})
+	var releaseOnce sync.Once
+	letGo := func() { releaseOnce.Do(func() { close(release) }) }
+	defer letGo()
 
 	// expected per writer
 	expLines := make([][]string, nw)
@@ -290,9 +300,10 @@ func runC17x(c c17Case, info *c17Info) *vstat.Failure {
 					time.Sleep(50 * time.Microsecond) // pace datagrams: a full receive buffer drops them
 				}
 			}
-			if c.Kind != "stdin" || true {
-				conn.Close()
+			if hold {
+				<-release
 			}
+			conn.Close()
 			markSeqDone(dir, id)
 		}(i)
 	}
@@ -309,6 +320,15 @@ func runC17x(c c17Case, info *c17Info) *vstat.Failure {
 	}
 	wdone := make(chan struct{})
 	go func() { finished.Wait(); close(wdone) }()
+	if hold {
+		// the peers do not close: the stream has to end on the cancellation
+		select {
+		case <-col.done:
+		case <-time.After(10 * time.Second):
+			return vstat.Failf("stream-does-not-end", "%s stream: the line channel was not closed within 10 s after cancellation while its peers stayed connected and silent", c.Kind)
+		}
+		letGo()
+	}
 	select {
 	case <-wdone:
 	case <-time.After(20 * time.Second):
@@ -521,6 +541,11 @@ func TestC17(t *testing.T) {
 			}
 			if rapid.IntRange(0, 5).Draw(rt, "cancel") == 0 {
 				c.CancelAtUs = rapid.SampledFrom([]int{1, 100, 1000, 5000}).Draw(rt, "cancelat")
+				if (c.Kind == "unix" || c.Kind == "tcp") && !c.Sequential && rapid.Bool().Draw(rt, "hold") {
+					c.HoldOpen = true
+					c.SlowUs = rapid.SampledFrom([]int{0, 50, 300}).Draw(rt, "slow")
+					st.Class("cancelled-while-peers-stay-connected")
+				}
 			}
 			st.SkipShrink(rt, c)
 			f, info := runC17(c)
